@@ -20,7 +20,7 @@ def step (st : St) (line : String) : St × String :=
     if w.startsWith "ss." then
       let (s, out) := ssStep st.ss ws
       ({ st with ss := s }, out)
-    else if w = "st.var" || w = "prune" || w = "post" || w = "fix" || w = "enum" || w = "opt" || w = "ctx.min" || w = "ctx.max" || w = "view.mm" then
+    else if w = "st.var" || w = "prune" || w = "post" || w = "fix" || w = "enum" || w = "opt" || w = "limit" || w = "ctx.min" || w = "ctx.max" || w = "view.mm" then
       let (c, out) := coreStep st.core ws
       ({ st with core := c }, out)
     else (st, "bad-op")
